@@ -45,7 +45,10 @@ type Format struct {
 	Prep func(b []byte) func() (Value, int, bool)
 	// Must: boundary values every run includes whatever the seed; Corpus: fixed byte inputs
 	// (malformed encodings and the regression inputs of the fixed defects).
-	Must   func() []Value
+	Must func() []Value
+	// Sweep: a few representative valid values whose encodings the C11 driver uses for the
+	// length-field sweep (every offset overwritten with 1-, 2- and 4-byte huge values).
+	Sweep  func() []Value
 	Corpus func() [][]byte
 }
 
